@@ -201,15 +201,35 @@ int __wrap_socketpair(int d, int t, int p, int sv[2])
     tr("OPEN %s pipe", kname(vf(sv[0])));
     return 0;
 }
-pid_t __wrap_fork(void) { nkids_live++; tr("FORK pid=%d live=%d", next_pid, nkids_live); if (next_pid - 50000 < 4096) pid_conn[next_pid - 50000] = last_pipe_fd; return next_pid++; }
-int __wrap_kill(pid_t pid, int sig) { tr("KILL pid=%d sig=%d", pid, sig); return 0; }
+static unsigned char kid_state[4096];          /* see __wrap_kill */
+pid_t __wrap_fork(void) { nkids_live++; tr("FORK pid=%d live=%d", next_pid, nkids_live); if (next_pid - 50000 < 4096) { pid_conn[next_pid - 50000] = last_pipe_fd; kid_state[next_pid - 50000] = 1; } return next_pid++; }
+/* children: 1 = running, 2 = on its way out (killed with SIGKILL, or a stubborn helper that has seen EOF on its socket): it can be reaped
+   by a BLOCKING waitpid, or by any waitpid once the daemon has been through poll() again - a waitpid(WNOHANG) issued in the same breath as
+   the kill finds it still there (signal delivery and exit are asynchronous), 3 = exited, reapable at once */
+int __wrap_kill(pid_t pid, int sig)
+{
+    tr("KILL pid=%d sig=%d", pid, sig);
+    if (pid >= 50000 && pid - 50000 < 4096 && kid_state[pid - 50000]) {
+        int fd = pid_conn[pid - 50000];
+        int sock_open = IS(fd) && vf(fd)->k == K_PIPE && !vf(fd)->peer_closed;
+        if (sig == SIGKILL) { if (kid_state[pid - 50000] == 1) kid_state[pid - 50000] = 2; }
+        else if (!stubborn) kid_state[pid - 50000] = 3;
+        else if (!sock_open && kid_state[pid - 50000] == 1) kid_state[pid - 50000] = 2;     /* leaves when it reads EOF, in its own time */
+    }
+    return 0;
+}
 pid_t __wrap_waitpid(pid_t pid, int *st, int o)
 {
+    if ((o & WNOHANG) && pid >= 50000 && pid - 50000 < 4096 && kid_state[pid - 50000] && kid_state[pid - 50000] != 3) {
+        tr("WAIT pid=%d WNOHANG: not yet", pid);
+        return 0;
+    }
     if (stubborn && pid >= 50000 && pid - 50000 < 4096) {
         int fd = pid_conn[pid - 50000];
         /* the helper ignored SIGTERM; it exits only when it reads EOF, i.e. when the daemon has closed its end */
         if (IS(fd) && vf(fd)->k == K_PIPE && !vf(fd)->peer_closed) { tr("HANG waitpid pid=%d (helper ignores SIGTERM, its socket is still open)", pid); fflush(out); _exit(98); }
     }
+    if (pid >= 50000 && pid - 50000 < 4096) kid_state[pid - 50000] = 0;
     nkids_live--; if (st) *st = SIGTERM; tr("WAIT pid=%d live=%d", pid, nkids_live); return pid;
 }
 
@@ -321,6 +341,7 @@ static int compute_ready(struct pollfd *p, nfds_t n)
 int __wrap_poll(struct pollfd *p, nfds_t n, int tmo)
 {
     flood_reads = 0;
+    for (int ki = 0; ki < 4096; ki++) if (kid_state[ki] == 2) kid_state[ki] = 3;     /* time has passed: children on their way out are gone by now */
     rounds++;
     if (want_state) report_state();
     if (want_mem) { struct mallinfo2 mi = mallinfo2(); tr("MEM inuse=%zu", (size_t)mi.uordblks); }
